@@ -28,7 +28,12 @@ def select_cases(tier, seed, families=("flat", "blocks"), quick_random=30, thoro
     n = quick_random if tier == "quick" else thorough_random
     if "flat" in families:
         cases += gen.systematic_flat()
-        cases += gen.systematic_corner()
+        corner = gen.systematic_corner()
+        if tier == "quick":       # the run-length x short-window block is large: a seeded third of it per quick run
+            sw = [c for c in corner if "short-window" in c["tags"]]
+            rest = [c for c in corner if "short-window" not in c["tags"]]
+            corner = rest + random.Random(seed + 1).sample(sw, len(sw) // 3)
+        cases += corner
         cases += gen.random_flat(rng, n)
     if "blocks" in families:
         cases += gen_blocks.systematic_blocks()
@@ -296,9 +301,9 @@ def c02(tier, seed):
             raise tlc.TLCError("specification self-check failed: invariant %s violated with pruning off" % pr.violation)
 
     return run_prop("C02", tier, seed, ops, judge, post=post,
-                    rule="IterateSATGen asked for 1500 sequences; returned set is validated trace by trace (soundness) and "
+                    rule="IterateSATGen asked for CAP (600 quick, 1500 thorough) sequences; returned set is validated trace by trace (soundness) and "
                          "compared with the exhaustive enumeration of Design behaviours by MCEnum (completeness) when fewer "
-                         "than 1500 came back; non-trivial = non-empty exhausted set that went through MCEnum")
+                         "than CAP came back; non-trivial = non-empty exhausted set that went through MCEnum")
 
 
 def c04(tier, seed):
@@ -376,7 +381,7 @@ def c06(tier, seed):
             cov.sample(sample_of(r, 1))
 
     return run_prop("C06", tier, seed, ops, judge,
-                    rule="RandomGen asked for 1500 sequences under a watchdog; set validated by MCTrace and compared with MCEnum; "
+                    rule="RandomGen asked for CAP sequences under a watchdog; set validated by MCTrace and compared with MCEnum; "
                          "metrics['solution_count'] compared with |Valid| for single-round rejection-free designs; non-trivial = "
                          "non-empty exhausted set that went through MCEnum")
 
@@ -423,7 +428,7 @@ def c07(tier, seed):
                                  sat=r.obs[1]["count"], rnd=r.obs[2]["count"], example=(onlya or onlyb)[0][3]))
 
     return run_prop("C07", tier, seed, ops, judge, post=post,
-                    rule="both strategies exhausted (cap 1500) on every case both accept; TLC (MCAgree) compares the two sets; "
+                    rule="both strategies exhausted (cap 600 quick, 1500 thorough) on every case both accept; TLC (MCAgree) compares the two sets; "
                          "non-trivial = both returned a non-empty uncapped set")
 
 
@@ -488,6 +493,8 @@ def c09(tier, seed):
     err = None
     try:
         cases = select_cases(tier, seed, ("flat", "blocks"), 20, 300)
+        if tier == "quick" and not common.replay_cases():
+            cases = random.Random(seed + 9).sample(cases, min(len(cases), 130))      # a seeded subset per quick run
         for batch in batches(cases):
             def ops1(c):
                 return [{"op": "synth", "strategy": SAT, "n": 400, "exhaust": True},
